@@ -437,6 +437,21 @@ func init() {
 			in.stubsHit["encoding/json.Unmarshal of the embedded polygon table (decoded natively by the engine)"]++
 			return Iface{}
 		}
+		// concrete text into *map[string]string (Tags.UnmarshalJSON): the documented
+		// behaviour of encoding/json: a nil map is allocated, an existing map is reused and
+		// keeps its entries, every string member is stored, a member of another JSON type
+		// is skipped and reported as the (first) error after the rest has been decoded
+		if target, ok := c.args[1].(Iface); ok && target.t != nil {
+			if pt, ok := target.t.Underlying().(*types.Pointer); ok {
+				if mt, ok := pt.Elem().Underlying().(*types.Map); ok && isString(mt.Key()) && isString(mt.Elem()) {
+					txt, ok := in.mkStr(in.sliceBytes(c.args[0].(SliceV))).Concrete()
+					if !ok {
+						in.unsupported("json.Unmarshal of symbolic text into a map")
+					}
+					return in.jsonIntoStringMap(txt, target.v.(Ptr).c, mt)
+				}
+			}
+		}
 		in.unsupported("encoding/json.Unmarshal (reflection) outside the known init")
 		return nil
 	}
@@ -1145,4 +1160,85 @@ func init() {
 	}
 	intrinsics["sort.Slice"] = small("sort.Slice", 12)
 	intrinsics["sort.SliceStable"] = small("sort.SliceStable", 12)
+}
+
+func (in *Interp) jsonIntoStringMap(txt string, cell *Cell, mt *types.Map) Value {
+	in.stubsHit["encoding/json.Unmarshal of concrete text into map[string]string (documented merge / type-error behaviour)"]++
+	if !json.Valid([]byte(txt)) {
+		return in.mkError("invalid character in JSON text") // syntax errors are detected before anything is stored
+	}
+	dec := json.NewDecoder(strings.NewReader(txt))
+	tok, err := dec.Token()
+	if err != nil {
+		return in.mkError("json: " + err.Error())
+	}
+	if tok == nil { // null: the map is left alone
+		return Iface{}
+	}
+	if d, ok := tok.(json.Delim); !ok || d != '{' {
+		return in.mkError("json: cannot unmarshal non-object into Go value of type map[string]string")
+	}
+	mv, _ := in.load(cell).(MapV)
+	if mv.m == nil {
+		in.allocs++
+		mv = MapV{&MapObj{id: in.allocs, kt: mt.Key(), vt: mt.Elem(), cell: &Cell{id: in.allocs, typ: mt}}}
+		in.store(cell, mv)
+	}
+	var firstErr Value = Iface{}
+	for dec.More() {
+		kt, err := dec.Token()
+		if err != nil {
+			return in.mkError("json: " + err.Error())
+		}
+		key, _ := kt.(string)
+		var raw json.RawMessage
+		if err := dec.Decode(&raw); err != nil {
+			return in.mkError("json: " + err.Error())
+		}
+		var sv string
+		if len(raw) > 0 && raw[0] == '"' && json.Unmarshal(raw, &sv) == nil {
+			in.mapSet(mv.m, Str{s: key}, Str{s: sv})
+		} else if string(raw) == "null" {
+			in.mapSet(mv.m, Str{s: key}, Str{})
+		} else if isNilValue(firstErr) {
+			firstErr = in.mkError("json: cannot unmarshal value of member " + key + " into Go value of type string")
+		}
+	}
+	return firstErr
+}
+
+// sync.Pool: Get returns the most recently Put value (the behaviour under which state
+// left in a pooled object is visible to the next user), otherwise New().
+func init() {
+	key := func(in *Interp, c *Cell) string { return in.sideKey("syncpool", c) }
+	intrinsics["(*sync.Pool).Put"] = func(in *Interp, c *callCtx) Value {
+		p := c.args[0].(Ptr)
+		k := key(in, p.c)
+		st, _ := in.objs[k].(Tuple)
+		in.objs[k] = append(append(Tuple{}, st...), c.args[1])
+		in.stubsHit["sync.Pool (LIFO model)"]++
+		return nil
+	}
+	intrinsics["(*sync.Pool).Get"] = func(in *Interp, c *callCtx) Value {
+		p := c.args[0].(Ptr)
+		k := key(in, p.c)
+		in.stubsHit["sync.Pool (LIFO model)"]++
+		if st, _ := in.objs[k].(Tuple); len(st) > 0 {
+			v := st[len(st)-1]
+			in.objs[k] = append(Tuple{}, st[:len(st)-1]...)
+			return v
+		}
+		// New func() any
+		pt := p.c.typ
+		if st, ok := pt.Underlying().(*types.Struct); ok {
+			for i := 0; i < st.NumFields(); i++ {
+				if st.Field(i).Name() == "New" {
+					if cl, ok := in.load(p.c.sub[i]).(*Closure); ok && cl != nil {
+						return in.callSync(c.g, cl, nil)
+					}
+				}
+			}
+		}
+		return Iface{}
+	}
 }
